@@ -214,6 +214,24 @@ theorem someOp_termProp {α} : (someOp : Op α Bool).TermProp := fun lag raw h =
     | done => simp [noTerm, Notif.isTerminal]
     | err e => simp [noTerm, Notif.isTerminal]
 
+/-- `first` / `some` forward the source's error while undecided (after the decision they ignore it — the out-level form of
+`ErrThrough` needs no handler-level `FwdErr`) -/
+theorem firstOrDefaultO_errThrough {α} (d : Option α) : (firstOrDefaultO d).ErrThrough := by
+  intro lag ws e post hlive
+  rw [firstOrDefaultO_out] at hlive ⊢
+  rw [firstOrDefaultO_out]
+  cases ws with
+  | nil => simp [firstRef, elems, ending]
+  | cons w ws => simp [firstRef, noTerm, Notif.isTerminal] at hlive
+
+theorem someOp_errThrough {α} : (someOp : Op α Bool).ErrThrough := by
+  intro lag ws e post hlive
+  rw [someOp_out] at hlive ⊢
+  rw [someOp_out]
+  cases ws with
+  | nil => simp [someRef, elems, ending]
+  | cons w ws => simp [someRef, noTerm, Notif.isTerminal] at hlive
+
 theorem reduceO_termProp {α β} (f : β → α → Except Err β) (seed : Option β) (inj : α → β) : (reduceO f seed inj).TermProp := by
   cases seed <;> exact (scanO_termProp f _ inj).comp (lastOrDefaultO_termProp _)
 theorem reduceO_errThrough {α β} (f : β → α → Except Err β) (seed : Option β) (inj : α → β) : (reduceO f seed inj).ErrThrough := by
